@@ -325,7 +325,10 @@ func (m *manager) recordAcceptedValidationEvents(chst datatransfer.ChannelState,
 func (m *manager) validateRestart(chst datatransfer.ChannelState) (datatransfer.ValidationResult, error) {
 	chv := chst.Voucher()
 
-	processor, _ := m.validatedTypes.Processor(chv.Type)
+	processor, ok := m.validatedTypes.Processor(chv.Type)
+	if !ok {
+		return datatransfer.ValidationResult{}, fmt.Errorf("unknown voucher type: %s", chv.Type)
+	}
 	validator := processor.(datatransfer.RequestValidator)
 
 	return validator.ValidateRestart(chst.ChannelID(), chst)
